@@ -1685,6 +1685,15 @@ func tripleWith(o val) *triple.Triple {
 	return t
 }
 
+var farPreds = func() []*predicate.Predicate {
+	var ps []*predicate.Predicate
+	for _, y := range []int{2200, 1500, 9999} {
+		p, _ := predicate.NewTemporal("far", time.Date(y, 6, 15, 12, 30, 45, 123456789, time.UTC))
+		ps = append(ps, p)
+	}
+	return ps
+}()
+
 func safeUUID(v val) (s string) {
 	defer func() {
 		if r := recover(); r != nil {
@@ -1695,6 +1704,11 @@ func safeUUID(v val) (s string) {
 	// determinism: same answer on a second call, after unrelated calls (pooled buffers), and from another goroutine
 	nodeOf("/zzzzzzzzzzzzzzzzzzzzzzzzzzzzzzzzzzzzzz", "yyyyyyyyyyyyyyyyyyyyyyyyyyyyyyyyyyyyyyyyyyyyyyyy").uuid()
 	litOf(literal.Text, "wwwwwwwwwwwwwwwwwwwwwwwwwwwwwwwwwwwwwwwwwwwwwwwwwwwwwwwwwwwwwwwwwwwwwwwwwwwww").uuid()
+	// anchors whose UnixNano needs 9 and 10 varint bytes (outside 1823..2116): a scratch block that is reused without
+	// being cleared keeps their tail
+	farPreds[0].UUID()
+	farPreds[1].UUID()
+	farPreds[2].UUID()
 	b := v.uuid()
 	ch := make(chan string)
 	go func() {
@@ -1944,6 +1958,10 @@ func modeUUID(n int) {
 		g.Exist(context.Background(), ts[0])
 		graphLines(g)
 		g.RemoveTriples(context.Background(), ts[:5])
+		for _, y := range []int{1, 1500, 1822, 1823, 2116, 2117, 2200, 9999} {
+			tmpOf("far", time.Date(y, 1, 1, 0, 0, 0, 1, time.UTC)).uuid()
+			tmpOf("far", time.Date(y, 12, 31, 23, 59, 59, 999999999, time.UTC)).uuid()
+		}
 	}()
 	changed := 0
 	var ex []J
